@@ -153,10 +153,10 @@ class Harness:
             loop.call_soon(lambda: loop.create_task(self._wrap(kind, RE._stop_coro())))
         elif kind == "halt":
             loop.call_soon(lambda: loop.create_task(self._wrap(kind, RE._halt_coro())))
-        elif kind in ("suspend", "suspend-pp"):
+        elif kind in ("suspend", "suspend-pp", "suspend-call"):
             delta = params.get("release_after", 0.3)
             ev = asyncio.Event()
-            loop.call_later(delta, lambda: (self.log.append(("release", kind, delta)), ev.set()))
+            loop.call_later(delta, lambda: (self.log.append(("release", kind, delta, ev)), ev.set()))
             RE.request_suspend(ev.wait, pre_plan=params.get("pre_plan"), post_plan=params.get("post_plan"),
                                justification=params.get("justification"))
         else:
